@@ -154,28 +154,49 @@ def distinctStr : List Str → Bool
   | [] => true
   | k :: ks => !ks.contains k && distinctStr ks
 
-/-- the value mapping of a key is one-to-one in both directions and no sid-side value is itself a
-    word the path expression of that key accepts ("idempotent").
+/-- `utils.get_key(mapping, value, default=value)` (as `Ctx.getKey`, restated here for the conventions) -/
+def firstKey (m : List (Str × Str)) (value : Str) : Str :=
+  match m.find? (·.2 == value) with
+  | some (k, _) => k
+  | none => value
+
+/-- the value mapping of a key: path-side words are distinct (they are the keys of a Python dict),
+    no sid-side value is itself a word the path expression of that key accepts ("idempotent"), and
+    the word a sid value is RENDERED with — the first path word listed for it — is acceptable
+    wherever a path word of that value is (trivially so for a one-to-one mapping).
+    CHANGED (weakened): sid-side values need not be distinct any more — two disk words may denote one
+    sid value ("if the value exists multiple times, the first one is returned", `spil_fs_conf.py`).
     CHANGED (added): sid-side values are non-empty (an empty sid value is not mapped back by
     `dict_to_path`, so the path would be re-rendered with an empty field: `c06_total` is false
     then, see the counterexample in `Spil/Props/C05b.lean`). -/
 def mappingOk (e : Env) (pc : PathConf) : Bool :=
   pc.mapping.all (fun km =>
-    distinctStr (km.2.map (·.1)) && distinctStr (km.2.map (·.2)) &&
+    distinctStr (km.2.map (·.1)) &&
     km.2.all (fun pv => !pv.2.isEmpty) &&
     pc.templates.all (fun lt => lt.2.all (fun tok => match tok with
-      | .ph k ex => k != km.1 || km.2.all (fun pv => !(ex.accepts e pv.2))
+      | .ph k ex => k != km.1 ||
+          (km.2.all (fun pv => !(ex.accepts e pv.2)) &&
+           km.2.all (fun pv => !(ex.accepts e pv.1) || ex.accepts e (firstKey km.2 pv.2)))
       | _ => true)))
 
+/-- the key has no (non-empty) value mapping -/
+def unmapped (pc : PathConf) (k : Str) : Bool :=
+  match pc.mapping.lookup k with
+  | some m => m.isEmpty
+  | none => true
+
 /-- a path configuration follows the conventions.
-    CHANGED (added): template labels are unique (they are the keys of a Python dict). -/
+    CHANGED (added): template labels are unique (they are the keys of a Python dict).
+    CHANGED (weakened): a default may concern a FREE key (a folder level that is no Sid key, filled
+    by `path_defaults`) provided that key has no value mapping and the default is '/'-free. -/
 def pathConfOk (e : Env) (pc : PathConf) : Bool :=
   distinctStr (pc.templates.map (·.1)) &&
   pc.templates.all (fun lt => pathTplOk e lt.2) && mappingOk e pc &&
-  -- defaults only concern closed keys (an empty value never comes out of a closed placeholder)
-  -- and are words of the vocabulary of that key
+  -- defaults are words the expression of their key accepts; a closed placeholder never yields an
+  -- empty value, a free one may (the default then replaces it): such a key is not mapped
   pc.defaults.all (fun kd => pc.templates.all (fun lt => lt.2.all (fun tok => match tok with
-    | .ph k ex => k != kd.1 || (!(ex == Re.star Cls.notSlash) && ex.accepts e kd.2)
+    | .ph k ex => k != kd.1 ||
+        (ex.accepts e kd.2 && (!(ex == Re.star Cls.notSlash) || unmapped pc k))
     | _ => true)))
 
 /-- the TEMPLATE half of `pathConfOk`: every path template follows `pathTplOk`.  This is all that
